@@ -1,4 +1,4 @@
-import Logrange.Proofs.LqlStmt
+import Logrange.Proofs.LqlLex
 /-!
 # C12 — LQL statements keep their meaning through print and re-parse
 
@@ -350,5 +350,38 @@ example : wfLql rdEx { show_ := some { partitions := some { source := some (.tag
 example : wfLql rdEx {} = false ∧ wfLql rdEx { select := some { format := some [] } } = false
     ∧ wfLql rdEx { select := some { source := some (.tags [([97], [125])]) } } = false := by
   decide +kernel
+
+/-! ## character level WITHOUT the `Lexable` hypothesis (expressions, expression sources, CREATE PIPE over them) -/
+
+/-- **`lex (print e) = tokensOf e`, proved from the lexer model** (maximal munch over the seven token groups, ties to the
+earlier group, blanks skipped, participle's unquote) for every expression with lexable atoms, any nesting depth.
+`laExpr` (decidable): operands identifier-shaped (`[a-zA-Z_][a-z./\-A-Z0-9_:]*`; this covers every letter keyword used
+as an operand), operators one of the six symbols or an identifier-shaped keyword, every value `strAtomOK` — its
+`strconv.Quote` text has the shape the String pattern consumes whole and participle's unquote reads it back (a decidable
+per-value condition; `strconv.Quote` gives the shape for every byte string and the unquote half holds for valid UTF-8 —
+that general fact about Quote is NOT proved here, it is evaluated per value). -/
+theorem lexable_expr (e : Expr) (h : laExpr e = true) : LexableExpr e := lex_printExpr e h
+
+/-- **print then parse is the identity on expressions**, no `Lexable` hypothesis -/
+theorem print_parse_expr (e : Expr) (hw : wfExpr e = true) (hl : laExpr e = true) :
+    parseExprText (szExpr e) (printExpr e) = some e :=
+  print_parse_partial e hw (lexable_expr e hl)
+
+/-- the same for a source condition given as an expression (a `{…}` source still needs `LexableSource`: F12a/F12b live there) -/
+theorem print_parse_source_expr (s : Expr) (hw : wfExpr s = true) (hl : laExpr s = true) :
+    parseSourceText (szExpr s) (printSource (.expr s)) = some (.expr s) :=
+  print_parse_source_partial (.expr s) (by simpa [wfSource] using hw)
+    (by unfold LexableSource; simpa [printSource, toksSource] using lex_printExpr s hl)
+
+/-- **`CREATE PIPE p FROM S WHERE F` ≡ the pipe defined directly by S and F, without the `Lexable` hypothesis**, for
+S an expression source: the stored texts `print S`, `print F` parse back to S and F -/
+theorem create_pipe_equiv (name : Bytes) (S F : Expr) (hS : wfExpr S = true) (hF : wfExpr F = true)
+    (lS : laExpr S = true) (lF : laExpr F = true) :
+    let st := createPipeStores ⟨name, some (.expr S), some F⟩
+    st.1 = name ∧ parseSourceText (szExpr S) st.2.1 = some (.expr S) ∧ parseExprText (szExpr F) st.2.2 = some F :=
+  ⟨rfl, print_parse_source_expr S hS lS, print_parse_expr F hF lF⟩
+
+example : laExpr exE = true := by decide +kernel
+example : parseExprText (szExpr exE) (printExpr exE) = some exE := print_parse_expr exE (by decide +kernel) (by decide +kernel)
 
 end Logrange.Props.C12
